@@ -101,7 +101,7 @@ func genKeys(e *emitter, prop string, tier string) {
 						perm[i] = int64((i + 1) % r)
 					}
 					e.emit(opCase("shape-key-family", "Transpose", []Attr{{Name: "perm", Type: "ints", Ints: perm}}, []*TJ{x}, nil))
-					e.emit(opCase("shape-key-family", "Concat", []Attr{{Name: "axis", Type: "i", I: int64(r - 1)}}, []*TJ{x, x}, nil))
+					e.emit(opCase("shape-key-family", "Concat", []Attr{{Name: "axis", Type: "i", I: int64(r - 1)}}, []*TJ{x, seqT("f32", sh, func(i int) float64 { return float64(20 + i%7) })}, nil))
 					e.emit(opCase("shape-key-family", "Gather", []Attr{{Name: "axis", Type: "i", I: 0}}, []*TJ{x, idxT("i64", []int{2}, []int{sh[0] - 1, 0})}, nil))
 					e.emit(opCase("shape-key-family", "Slice", nil, []*TJ{x, idxT("i64", []int{1}, []int{0}), idxT("i64", []int{1}, []int{1}), idxT("i64", []int{1}, []int{r - 1})}, nil))
 				} else {
